@@ -60,6 +60,10 @@ class CallOps:
                 return self.mk_bool(c)
             if f.id in ('old', 'forall', 'exists') and self.spec_mode and f.id not in st.env:
                 return self.spec_builtin(f.id, node)
+            if f.id == 'sum' and f.id not in st.env and len(node.args) == 2 and \
+                    isinstance(node.args[0], (ast.GeneratorExp, ast.ListComp)) and \
+                    isinstance(node.args[1], ast.List) and not node.args[1].elts:
+                return self.flatten_comprehension(node.args[0], node)
             if f.id == 'implies' and self.spec_mode and len(node.args) == 2:
                 a, _, _ = self.cond(node.args[0])
                 if a == FALSE:
@@ -237,6 +241,15 @@ class CallOps:
             return SV('list', seq=self.seq_of(v), owned=True, ty=frozenset([('list', self.elem_ty(v))]))
         if v.kind == 'str' and v.is_const:
             return SV('list', elems=[self.const(c) for c in v.const], owned=True, ty=parse_ty('list[str]'))
+        if v.kind == 'str':
+            st = self.st
+            st.decls.fun('chars', ['String'], 'Int')
+            q = "(chars %s)" % v.term
+            st.assume(mk_eq("(len %s)" % q, "(str.len %s)" % v.term), 'def')
+            self.join_axioms('""', q)
+            st.assume(mk_eq("(sjoin \"\" %s)" % q, v.term), 'def')
+            self.lib_assumptions.add("list(s) for a str s: a sequence of len(s) one-character strings whose ''.join is s")
+            return SV('list', seq=q, owned=True, ty=parse_ty('list[str]'))
         raise Unsupported('list() of %s' % v.kind, node)
 
     def builtin_sorted(self, xs, kwargs, node):
@@ -296,6 +309,43 @@ class CallOps:
             st.assume(mk_le('0', "(len %s)" % q), 'wf')
             return SV('list', seq=q, owned=True, ty=frozenset([('list', frozenset(ety))]), extra={'flatten_of': self.seq_of(xs)})
         raise Unsupported('sum()', node)
+
+    def flatten_comprehension(self, gen, node):
+        """sum((f(x) for x in xs), []): opaque flattened list of the inner element type"""
+        st = self.st
+        g = gen.generators[0]
+        if len(gen.generators) != 1 or g.ifs:
+            raise Unsupported('sum over filtered/nested generator', node)
+        it = self.iter_spec(g.iter, node)
+        if it['concrete'] is not None:
+            out = SV('list', elems=[], owned=True, ty=parse_ty('list'))
+            saved = dict(st.env)
+            for item in it['concrete']:
+                self.bind_target(g.target, item)
+                v = self.ev(gen.elt)
+                out = self.seq_concat(out, v)
+            st.env = saved
+            return out
+        j = st.decls.const('fj', 'Int')
+        st.assume(mk_and(mk_le('0', j), mk_lt(j, it['count'])), 'pc')
+        saved = dict(st.env)
+        heap_before = dict(st.heap)
+        self.bind_target(g.target, it['item'](j))
+        v = self.ev(gen.elt)
+        st.env = saved
+        if v.kind == 'val':
+            v = self.narrow(v)
+        if v.kind not in ('list', 'tuple'):
+            raise Unsupported('sum of non-lists', node)
+        for a in list(st.heap):
+            if heap_before.get(a) != st.heap[a]:
+                st.heap[a] = st.decls.const('H_' + a, '(Array Int Val)')
+                st.bump(a)
+        q = st.decls.const('qflat', 'Int')
+        st.assume(mk_le('0', "(len %s)" % q), 'wf')
+        self.lib_assumptions.add('sum(generator, []): result modelled as an opaque list of the inner element type '
+                                 '(obligations of one arbitrary element evaluation are checked)')
+        return SV('list', seq=q, owned=True, ty=frozenset([('list', self.elem_ty(v))]))
 
     def builtin_reduce(self, args, node):
         # reduce(f, text.splitlines()) re-indents text: modelled as an uninterpreted function of the text
